@@ -88,6 +88,9 @@ func (o *vHObj) WriteAt(b []byte, off int64) (int, error) {
 	if err := vHErr(); err != nil {
 		return 0, err
 	}
+	if len(b) == 0 {
+		return 0, nil
+	}
 	end := int(off) + len(b)
 	for len(o.data) < end {
 		o.data = append(o.data, 0)
